@@ -73,6 +73,13 @@ def rk_dyn(eng, st, pre):
     return VDyn(fresh('res', t.VAL))
 
 
+def rk_list(eng, st, pre):
+    """a fresh ListContainer whose length and items the ensures clauses pin"""
+    arr, ln = fresh('res_items', 'VArr'), fresh('res_len', t.INT)
+    st.assume(t.ge(ln, t.ZERO))
+    return st.alloc(OList(arr=arr, ln=ln, ekind='val', cls='ListContainer'), 'list')
+
+
 USE_LOG = set()      # contracts applied at call sites since the log was last cleared (dependency closure of a proof)
 
 
@@ -89,6 +96,7 @@ class FnContract:
         self.iface = None
         self.default_loop = None
         self.modifies_heap = False
+        self.heap_pure = True          # helper functions (stream access, conversions) never touch the scope heap; construct methods do
         self.generic = False
         self.variants = [None]
 
@@ -208,8 +216,19 @@ class FnContract:
                 v = bound.get(name)
                 if isinstance(v, VRef):
                     havoc_object(eng, s2, v, 'post_' + name)
-            if self.modifies_heap and eng.models.interface is not None:
-                eng.models.interface.havoc_heap(eng, s2)
+            # the scope heap after the call is whatever the clauses say it is: it is havoced unless the contract declares that the
+            # function leaves it alone (heap_pure); a clause about the post heap then constrains it instead of silently
+            # restricting the caller's initial heap
+            iface_ = eng.models.interface
+            if iface_ is not None and 'H' in s2.ghost and (self.modifies_heap or not getattr(self, 'heap_pure', False)):
+                cv = bound.get('context', bound.get('ctx'))
+                co = s2.get(cv) if isinstance(cv, VRef) else None
+                if not self.modifies_heap and type(co).__name__ == 'OContainer':
+                    # the frame every construct method is verified against (generic C17 contract): the context argument changes at
+                    # most at '_index', other existing containers are unchanged
+                    iface_.apply_heap_outcome(eng, s2, fresh('H', 'Heap'), fresh('D', 'Dom'), co.addr)
+                else:
+                    iface_.havoc_heap(eng, s2)
             post = View(eng, s2, selfv, bound)
             if case.kind == 'return':
                 res = case.rkind(eng, s2, pre2) if case.rkind else NONE
